@@ -63,7 +63,10 @@ def css_tables(chk):
     """generated stylesheets (every at-rule keyword of the shipped table and others, every option set) through the stylesheet model and the real transformer:
     token streams of both outputs, warnings, source-map positions and names"""
     from . import csscheck, cssmodel
-    cases = csscheck.gen_cases(chk.rng.fork("fallback-css"), 500, None)
+    from . import c17, c19
+    rng = chk.rng.fork("fallback-css")
+    # (the directed cases of the properties about the writers and the :host wrappers first: replayed preludes with astral characters, nested at-rules)
+    cases = list(c19.extra_cases(rng.fork("c19"), True)) + list(c17.extra_cases(rng.fork("c17"), True)) + csscheck.gen_cases(rng, 500, None)
     cssmodel.compare(chk, cases, cssmodel.run_cases(cases), stream="fallback:css")
     return 0
 
